@@ -460,7 +460,10 @@ def o_times(spec, tr, times):
             wtol = 3_000_000 + r["dur"] // 500   # the anchor is taken at report time: calibration error grows with the distance
             if not (T[b][2] - wtol <= r["begin"] <= T[b][3] + wtol):
                 out.append("record %r: begin time %d is outside the wall-clock window [%d,%d] of the call that created the span" % (r["name"], r["begin"], T[b][2], T[b][3]))
-        for ts in r["evt"]:
+        # events recorded in a LocalCollector scope with no local span open and pushed to this span later were recorded
+        # before the span existed: only events recorded in / attached to the span itself are bound by its interval
+        pushed = any(k[0] == "pushed" for x in (es or []) for k in x.get("groups", {}))
+        for ts in ([] if pushed else r["evt"]):
             if not (r["begin"] - 100_000 <= ts <= r["begin"] + r["dur"] + 100_000):
                 out.append("record %r: event timestamp %d outside the span's interval [%d,%d]" % (r["name"], ts, r["begin"], r["begin"] + r["dur"]))
     # containment and sibling order among local spans of one report (one clock anchor)
